@@ -5,13 +5,13 @@
 (* State: the types and relations declared so far; Twin/Pair/Def events must refer to them.      *)
 EXTENDS Relations, Definitions, Json, IOUtils, TLC, Sequences
 
-CONSTANTS BudgetEquiv, BudgetInverse
+CONSTANTS BudgetEquiv, BudgetInverse, BudgetDef
 Facts == ndJsonDeserialize(IOEnv.FACTS)
 VARIABLES l, qdim, qshape, rel, bad, stat
 vars == <<l, qdim, qshape, rel, bad, stat>>
 Init == /\ l = 1 /\ qdim = ("Number" :> DZero) /\ qshape = ("Number" :> 1) /\ rel = <<>> /\ bad = <<>>
         /\ stat = [rels |-> 0, twins |-> 0, pairs |-> 0, pairs_decided |-> 0, defs |-> 0, other |-> 0,
-                 equiv |-> 0, twinnum |-> 0, inverse |-> 0]
+                 equiv |-> 0, twinnum |-> 0, inverse |-> 0, tensordefs |-> 0, monoreal |-> 0, tensordefreal |-> 0]
 IsEvent(e) == l <= Len(Facts) /\ Facts[l].e = e /\ l' = l + 1
 V(cls, key, detail) == [cls |-> cls, key |-> key, detail |-> detail]
 Judge(checks) == bad' = bad \o [i \in 1..Len(SelectSeq(checks, LAMBDA c : ~c[1])) |->
@@ -106,10 +106,36 @@ TInverse == LET r == Facts[l] IN
   /\ stat' = [stat EXCEPT !.inverse = @ + 1]
   /\ UNCHANGED <<qdim, qshape, rel>>
 
+(* C18 tensor-valued definitions on integer tensors (exact): recorded through the relations evaluator *)
+TTensorDef == LET r == Facts[l] IN
+  /\ IsEvent("TensorDef") /\ r.rel \in DOMAIN rel
+  /\ Judge(<< <<r.exact /\
+                CASE r.def = "strain_of_gradient" -> TwiceStrainOfGradient(r.a) = [i \in 1..6 |-> 2 * r.out[i]]
+                  [] r.def = "volumetric_strain"  -> ThriceVolumetricStrain(r.a[1] * r.b[1]) = [i \in 1..6 |-> 3 * r.out[i]]
+                  [] r.def = "von_mises"          -> TwiceVonMisesSq(r.a) = r.out[1]          \* out = 2 * vm^2 snapped
+                  [] r.def = "traction"           -> TractionOf(r.a, r.b) = r.out
+                  [] r.def = "planar_traction"    -> <<TractionOf(r.a, <<r.b[1], r.b[2], 0>>)[1], TractionOf(r.a, <<r.b[1], r.b[2], 0>>)[2]>> = r.out
+                  [] r.def = "isotropic_stress"   -> StressOfPressure(r.a[1]) = r.out,
+                V("tensor_definition", rel[r.rel].name, r.def)>> >>)
+  /\ stat' = [stat EXCEPT !.tensordefs = @ + 1]
+  /\ UNCHANGED <<qdim, qshape, rel>>
+(* C18 numeric layer: every all-scalar monomial relation against c * prod x^p in __float128; tensor definitions against their formulas *)
+TMonoReal == LET r == Facts[l] IN
+  /\ IsEvent("MonoReal") /\ r.id \in DOMAIN rel /\ r.num \in {"f", "d", "l"}
+  /\ Judge(<< <<r.nonfinite = 0 /\ r.ulps <= (IF r.sqrt = 1 THEN 2 * BudgetDef ELSE BudgetDef), V("formula_value", rel[r.id].name, r.num)>>,
+              <<r.n > 0, V("inconclusive_formula_value", rel[r.id].name, r.num)>> >>)
+  /\ stat' = [stat EXCEPT !.monoreal = @ + 1]
+  /\ UNCHANGED <<qdim, qshape, rel>>
+TTensorDefReal == LET r == Facts[l] IN
+  /\ IsEvent("TensorDefReal") /\ r.id \in DOMAIN rel
+  /\ Judge(<< <<r.nonfinite = 0 /\ r.ulps <= 2 * BudgetDef, V("tensor_definition_value", rel[r.id].name, r.num)>> >>)
+  /\ stat' = [stat EXCEPT !.tensordefreal = @ + 1]
+  /\ UNCHANGED <<qdim, qshape, rel>>
+
 TFinish == /\ l = Len(Facts) + 1 /\ l' = l + 1
            /\ JsonSerialize(IOEnv.OUT, [bad |-> bad, stat |-> stat])
            /\ UNCHANGED <<qdim, qshape, rel, bad, stat>>
-Next == TQDim \/ TRel \/ TTwin \/ TPair \/ TDef \/ TEquiv \/ TTwinNum \/ TInverse \/ TFinish
+Next == TQDim \/ TRel \/ TTwin \/ TPair \/ TDef \/ TEquiv \/ TTwinNum \/ TInverse \/ TTensorDef \/ TMonoReal \/ TTensorDefReal \/ TFinish
 Spec == Init /\ [][Next]_vars
 Accepted == TLCGet("stats").diameter - 2 = Len(Facts)
 =============================================================================
